@@ -85,6 +85,15 @@ def run(ctx):
                             fh.write(progs.render_world(hw, extmod))
                         wk.call(cmd="world", dir=d, module=modname, extmod=extmod)
                         wk.call(cmd="run", entry=entry)
+                    # ... and a twin of the target that differs in comments only (same compiled code, other text)
+                    import copy
+                    twin = copy.deepcopy(w)
+                    for f in twin["funs"]:
+                        f["comment"] = "twin"
+                    with open(os.path.join(d, modname + ".py"), "w") as fh:
+                        fh.write(progs.render_world(twin, extmod))
+                    wk.call(cmd="world", dir=d, module=modname, extmod=extmod)
+                    wk.call(cmd="run", entry=entry)
                     with open(os.path.join(d, modname + ".py"), "w") as fh:
                         fh.write(progs.render_world(w, extmod))
                 wk.call(cmd="world", dir=d, module=modname, extmod=extmod)
